@@ -48,6 +48,10 @@ Reset == /\ win' = <<>> /\ cnt' = 0
          /\ data' = <<>> /\ idx' = 0 /\ sum' = 0 /\ sumsq' = 0
          /\ W' = W
 
+(* setWindowSize(w) on an empty estimator (fresh, or just reset): the window size that counts is the one configured last *)
+Resize(w) == /\ cnt = 0 /\ W' = w
+             /\ UNCHANGED <<win, cnt, data, idx, sum, sumsq>>
+
 (* observables *)
 Available == cnt >= W
 AvgNum    == SumSeq(win)                                   \* average * m * Len(win)
